@@ -173,3 +173,20 @@ Proof.
   apply existsb_exists in E as [c [Hin Hc]]. apply N.eqb_eq in Hc; subst c.
   unfold raw_plain in H. rewrite forallb_forall in H. specialize (H 34 Hin). discriminate.
 Qed.
+
+(* what toxml writes can always stand between double quotes and is inside the decoded fragment *)
+Lemma toxml_char_no_quote c : existsb (fun x => x =? 34) (toxml_char c) = false.
+Proof.
+  unfold toxml_char.
+  repeat match goal with |- context [if ?b then _ else _] => destruct b eqn:? end; try reflexivity.
+  cbn [existsb]. rewrite orb_false_r. assumption.
+Qed.
+
+Lemma toxml_no_quote : forall s, existsb (fun x => x =? 34) (toxml s) = false.
+Proof.
+  induction s as [|c s IH]; [reflexivity|].
+  unfold toxml in *. cbn [flat_map]. rewrite existsb_app, toxml_char_no_quote, IH. reflexivity.
+Qed.
+
+Theorem toxml_raw_ok : forall s, raw_ok (toxml s) = true.
+Proof. intro s. unfold raw_ok. rewrite toxml_no_quote, decode_toxml. reflexivity. Qed.
